@@ -859,3 +859,7 @@ mutant('R9-C04-server-initiated-parity', ['C04', 'C09'], ['stream-id|is_server_i
 mutant('F11-revert-recv-reset-ignores-scheduled-reset', ['C05', 'C19', 'C01', 'C09'], ['recv_reset|Closed(ScheduledLibraryReset(?))|queued=false'],
        'State::recv_reset ignores RST_STREAM for a stream whose own reset is only scheduled and that is not in pending_send (F11 before the fix)',
        [(S + 'state.rs', 'Closed(ref cause) if !queued && !matches!(cause, Cause::ScheduledLibraryReset(..)) => {}', 'Closed(..) if !queued => {}')])
+
+mutant('C14-R6-ping-ack-polarity', ['C14'], ['C14.R6|load|ack-table'],
+       'Ping::load takes every PING without ACK for an acknowledgement and vice versa',
+       [('src/frame/ping.rs', 'let ack = head.flag() & ACK_FLAG != 0;', 'let ack = head.flag() & ACK_FLAG == 0;')])
